@@ -95,6 +95,10 @@ structure Prog where
   outs : List Var
   /-- fields of pre-existing objects the routine writes: (variable, value on entry) -/
   tracked : List (Var × Int)
+  /-- pointer fields of pre-existing objects (`p_xstream->p_main_sched`, `p_thread->unit`): the variable and its
+      value on entry (`some i`: the i-th pre-existing resource, `none`: NULL).  A routine that reports an
+      error must leave them as they were. -/
+  fields : List (Var × Option Nat)
   /-- array parameters whose `param` elements may each hold a pre-existing resource (`pools[]`) -/
   preArrays : List Var
   /-- loop-bound parameter (e.g. `num_pools`) -/
@@ -416,11 +420,39 @@ def handleOk (p : Prog) (o : Outcome) : Bool :=
     | .res id => o.isSuccess && isLive o.st.live id
     | .int _ => false)
 
+/-- visible state of pre-existing objects is as on entry: every tracked integer field (`p_sched->used`) has its
+    entry value — whether it was never written or written and rolled back — and every tracked pointer field
+    (`p_xstream->p_main_sched`, `p_thread->unit`) designates what it designated on entry -/
+def stateAsOnEntry (p : Prog) (o : Outcome) : Bool :=
+  p.tracked.all (fun t => lookup o.st.vars (t.1, 0) == .int t.2) &&
+  p.fields.all (fun f => lookup o.st.vars (f.1, 0) == (match f.2 with
+    | some i => Val.res i
+    | none => Val.null))
+
 /-- pre-existing resources are never released and are all still live; tracked fields of
     pre-existing objects have their entry value again when the routine reports an error -/
 def preUntouched (p : Prog) (o : Outcome) : Bool :=
   !o.st.relPre && o.preLive.length == o.st.base &&
-    (o.isSuccess || p.tracked.all (fun t => lookup o.st.vars (t.1, 0) == .int t.2))
+    (o.isSuccess || stateAsOnEntry p o)
+
+/-- `preUntouched` for routines whose *successful* execution consumes a pre-existing resource by design
+    (replacing a main scheduler frees the old automatic one, re-associating a unit frees its old pool unit):
+    nothing of that may happen on a path that ends in an error -/
+def preUntouchedOnError (p : Prog) (o : Outcome) : Bool :=
+  o.isSuccess || preUntouched p o
+
+/-- when an error is reported the visible state is as on entry (never written, or written and rolled back) -/
+def stateRolledBack (p : Prog) (o : Outcome) : Bool :=
+  o.isSuccess || stateAsOnEntry p o
+
+/-- no resource is released twice and no never-assigned pointer is released — in particular a resource whose
+    ownership was handed to another resource's destructor (`give`: migration data stored in a key table) is
+    not released again after its owner has been released -/
+def noBadRelease (o : Outcome) : Bool :=
+  match o.st.fault with
+  | some (.doubleRelease _) => false
+  | some (.releaseUnassigned _) => false
+  | _ => true
 
 def allRuns (p : Prog) (fuel bound : Nat) (chk : Outcome → Bool) : Bool := (runs p fuel bound).all chk
 
